@@ -166,11 +166,6 @@ def resolveAtom (c : Cfg) (w : World) : Atom → Option Int
   | .par s i => readSrc w (s, i)
   | .fn deps k _ => (deps.mapM (readSrc w)).map (c.F k)
 
-/-- src: parameterized.py resolve_value(value, recursive); `none`: a source does not exist -/
-def resolveRhs (c : Cfg) (w : World) : Rhs → Option Val
-  | .atom a => (resolveAtom c w a).map .int
-  | .cont items => (items.mapM (resolveAtom c w)).map .tup
-
 def Atom.litVal : Atom → Option Int
   | .lit n => some n
   | _ => none
@@ -180,6 +175,13 @@ def plainOf : Rhs → Option Val
   | .atom (.lit n) => some (.int n)
   | .atom _ => none
   | .cont items => (items.mapM Atom.litVal).map .tup
+
+/-- src: parameterized.py resolve_value(value, recursive); `none`: a source does not exist, or
+(container, not recursive) the value is returned as it is and holds an unresolved object -/
+def resolveRhs (c : Cfg) (w : World) (r : Rhs) (nested : Bool) : Option Val :=
+  match r with
+  | .atom a => (resolveAtom c w a).map .int
+  | .cont items => if nested then (items.mapM (resolveAtom c w)).map .tup else plainOf r
 
 def Val.toRhs : Val → Rhs
   | .int n => .atom (.lit n)
@@ -282,7 +284,7 @@ def resolveForSet (c : Cfg) (d : PDecl) (linked : Bool) (rhs : Rhs) (w : World) 
     if (depsOf rhs d.nestedRefs).isEmpty then
       some (plainOf rhs, if linked then .drop else .keep)
     else
-      match resolveRhs c w rhs with
+      match resolveRhs c w rhs d.nestedRefs with
       | some v => some (some v, .link rhs)
       | none => none
 
@@ -360,7 +362,7 @@ def syncRefs (c : Cfg) (t : Nat) (d : SrcP) (w : World) : Res × World × List E
     let hit := tg.refs.filter fun kv => match ds[kv.1]? with
       | some pd => (depsOf kv.2 pd.nestedRefs).contains d
       | none => false
-    match hit.mapM (fun kv => (resolveRhs c w kv.2).map (kv.1, ·)) with
+    match hit.mapM (fun kv => (resolveRhs c w kv.2 (((ds[kv.1]?).map (·.nestedRefs)).getD false)).map (kv.1, ·)) with
     | some updates =>
       let (r, w1, evs) := syncKeys c t updates w
       (r, w1, flushEntry t ds.length evs)
@@ -381,6 +383,7 @@ def syncAll (c : Cfg) (d : SrcP) : List Nat → World → Res × World × List E
 /-- `S<s>.v<i> = v`: store, then the watchers sorted by precedence: `_sync_refs` (−1, changes only)
 in registration order, then the universal watcher (0) -/
 def srcSet (c : Cfg) (s i : Nat) (v : Int) (w : World) : Res × World × List Entry :=
+  if i ≥ c.nsp || s ≥ w.watch.length then (.raised .notModelled, w, []) else   -- no such source parameter
   match readSrc w (s, i), w.src[s]? with
   | some old, some row =>
     let w1 := { w with src := w.src.set s (row.set i v) }
